@@ -17,6 +17,13 @@ type Emu struct {
 	Can bool   // answer of CanClone
 	BS  uint64 // filesystem block size (4096 here)
 
+	// Refuse, if set, is asked before every clone (source file name, running number of the calls it was asked about,
+	// from 1): a non-nil error is returned to the caller instead of cloning - a filesystem that announced the
+	// ability and then refuses the call (EXDEV, EPERM, ETXTBSY, EOPNOTSUPP ...)
+	Refuse  func(srcName string, nth int) error
+	Refused int
+	asked   int
+
 	mu     sync.Mutex
 	Calls  int
 	Cloned uint64
@@ -95,6 +102,19 @@ func (e *Emu) CloneRange(dst, src *os.File, srcOff, srcLen, dstOff uint64) error
 	if !e.Can {
 		e.note("clone on a filesystem without support")
 		return &os.SyscallError{Syscall: "ioctl(FICLONERANGE)", Err: syscall.EOPNOTSUPP}
+	}
+	if e.Refuse != nil {
+		e.mu.Lock()
+		e.asked++
+		n := e.asked
+		e.mu.Unlock()
+		if err := e.Refuse(src.Name(), n); err != nil {
+			e.mu.Lock()
+			e.Refused++
+			e.mu.Unlock()
+			e.note("refused clone #%d from %s: %v", n, src.Name(), err)
+			return &os.SyscallError{Syscall: "ioctl(FICLONERANGE)", Err: err}
+		}
 	}
 	si, err := src.Stat()
 	if err != nil {
